@@ -25,7 +25,9 @@ def hostile_datagrams(rng, pair, n):
     # authentic datagrams to mutate: not the IKE_SA_INIT responses - before keys exist a forged IKE_SA_INIT response
     # legitimately derails that very exchange (RFC 7296 section 2.4; nothing an implementation can prevent), and this
     # oracle checks that the legitimate session completes
-    hist = [d for (_, _, d) in pair.history if not (d[18] == 34 and d[19] & 0x20)]
+    # only datagrams that were already delivered are replayed/mutated: delivering an authentic datagram that is still
+    # in flight ahead of time (and swallowing the reply) merely reorders the legitimate exchange
+    hist = [d for (_, _, d) in pair.delivered if not (d[18] == 34 and d[19] & 0x20)]
     known = [bytes(s.my_spi) for ep in (pair.A, pair.B) for s in ep.controller.ike_sas]
     for _ in range(n):
         k = rng.randrange(14)
@@ -164,6 +166,7 @@ def hostile_session(ctx, seed, legit, per_step, sendto_fail=None, kfail=None, re
                 p.do(list(a))
                 signal.setitimer(signal.ITIMER_REAL, 0)
             p.drain()
+            settle(p)
         except LoopEscape as ex:
             signal.setitimer(signal.ITIMER_REAL, 0)
             fails.append(Failure('property', 'loop:escaped-exception',
@@ -193,6 +196,17 @@ def hostile_session(ctx, seed, legit, per_step, sendto_fail=None, kfail=None, re
     return fails
 
 
+def settle(p):
+    """let outstanding exchanges finish (retransmissions recover anything the scripted delivery order missed)"""
+    for _ in range(12):
+        busy = any(int(s.state) in (2, 3, 11, 12, 13, 14, 15, 16, 17) for ep in (p.A, p.B) for s in ep.controller.ike_sas
+                   if s.peer_crypto is not None)
+        if not busy and not p.sim.net:
+            break
+        p.do(['tick', 3])
+        p.drain()
+
+
 def outcome(p):
     return (sum(1 for s in p.A.controller.ike_sas if s.peer_crypto is not None and int(s.state) == 10),
             sum(1 for s in p.B.controller.ike_sas if s.peer_crypto is not None and int(s.state) == 10),
@@ -208,6 +222,7 @@ def clean_outcome(legit):
         with Pair(seed=12345) as q:
             q.run([list(a) for a in legit])
             q.drain()
+            settle(q)
             _clean[key] = outcome(q)
     return _clean[key]
 
